@@ -688,7 +688,7 @@ func (s *seqRun) lookup(k *key, blobMode bool) {
 		s.violate("lookup:returns-layer-with-other-digest", fmt.Sprintf("%s of %s (TOC digest %s) returned the layer with TOC digest %s", name, k, k.dig, got))
 		return
 	}
-	if s.pending[k.imgNo] {
+	if s.pending[k.imgNo] && s.healthy() {
 		s.nontrivial = true
 		s.pending[k.imgNo] = false
 		s.r.Count("relookup_after_release_to_zero_ok", 1)
